@@ -394,7 +394,7 @@ pub fn run_c15(tier: &str, deadline: Instant, total: &mut Stats, log: &mut Vec<V
                                 });
                             }
                         }
-                        if local.samples.len() < 2 && abort.is_some() && r1.taken.len() >= 2 {
+                        if local.samples.len() < 2 && abort.is_some() && r1.taken.len() >= 2 && spec.n >= 2 {
                             local.samples.push(json!({"graph": spec.short(), "first_run": c1.short(), "first_choices": key1, "aborted_at_choice": abort, "second_run": c2.short(), "second_run_executions_compared": ref2.len()}));
                         }
                     }
@@ -749,7 +749,7 @@ fn explore_multi(spec: &Spec, cfgs: &[&AnyCfg], sb: usize, devb: Option<usize>, 
                 });
             }
         }
-        if local.samples.len() < 2 && mr.overlapped && mr.switches >= 2 && spec.n <= 4 {
+        if local.samples.len() < 2 && mr.overlapped && mr.switches >= 2 && spec.n >= 2 && spec.n <= 4 {
             local.samples.push(json!({"graph": spec.short(), "runs": names, "choices": key, "traces": mr.sides.iter().map(|s| s.text.clone()).collect::<Vec<_>>()}));
         }
     }
